@@ -211,6 +211,9 @@ Definition parse_inscription (s : bytes) : outcome inscription :=
   | Some p =>
       if lenN s <? 25 then Err
       else
+        obind (is_p2pkh (firstn 25 s)) (fun isp =>      (* s.Slice(0, 25).IsP2PKH() *)
+        if negb isp then Err
+        else
         obind (inscription_helper p) (fun ok =>
         if negb ok then Err
         else
@@ -219,7 +222,7 @@ Definition parse_inscription (s : bytes) : outcome inscription :=
           obind (is_op_zero_part s p 11) (fun z11 =>
           obind (is_op_zero_part s p 9) (fun z9 =>
           chk (slice s 0 25) (fun prefix =>
-            Ok (mkInscription prefix (if z11 then [] else data0) (if z9 then [] else ct0))))))))
+            Ok (mkInscription prefix (if z11 then [] else data0) (if z9 then [] else ct0)))))))))
   end).
 
 (** nodeOutputJSON.fromOutput on the locking script: ToASM, Addresses (number of), ScriptType *)
